@@ -81,6 +81,20 @@ def run(tier, seed):
     cases = make_cases(tier, rng)
     obs, crashes = vlib.run_cases(b["drivers"], "TestVersionCases", cases, "c02", env={"VERIF_VPLUGIN": b["vplugin"]},
                                   shards=min(8, vlib.NCPU))
+    # the same negotiation from a host that is itself a plugin: its own environment carries the list
+    # ITS host sent, which must not reach the plugins it launches
+    pairs = [c for c in cases if c["layer"] == "pair"]
+    nested = []
+    for c in (pairs if tier == "thorough" else rng.sample(pairs, min(60, len(pairs)))):
+        n = dict(c, name="n" + c["name"], host_env_versions=rng.choice(["7", "0", "3,2,1,0", "9,8"]))
+        nested.append(n)
+    for stale in sorted(set(n["host_env_versions"] for n in nested)):
+        grp = [n for n in nested if n["host_env_versions"] == stale]
+        o2, c2 = vlib.run_cases(b["drivers"], "TestVersionCases", grp, "c02n" + stale.replace(",", "_"),
+                                env={"VERIF_VPLUGIN": b["vplugin"], "PLUGIN_PROTOCOL_VERSIONS": stale}, shards=2)
+        obs.update(o2)
+        crashes.update(c2)
+    cases = cases + nested
     by = {c["name"]: c for c in cases}
     for name in vlib.hung_cases(obs):
         rep.violation("c02:hang", "case %s did not finish within %ss: a call never returned (%s)" % (name, obs[name].get("limit_s"), json.dumps({k: v for k, v in by[name].items() if k != "name"})[:300]),
@@ -100,7 +114,9 @@ def run(tier, seed):
             what = "host offers %s (%s), plugin serves %s (%s, gRPC factory %s): observed %s" % (
                 c["host"], c["host_form"], [(s["v"], s["proto"]) for s in c["served"]], c["served_form"], c["grpc_factory"], json.dumps(o["out"]))
             common = sorted(set(c["host"]) & set(s["v"] for s in c["served"]))
-            sig = "c02:pair:%s" % ("common" if common else "nocommon")
+            sig = "c02:pair:%s%s" % ("common" if common else "nocommon", ":nested-host" if c.get("host_env_versions") else "")
+            if c.get("host_env_versions"):
+                what = "host is itself a plugin (its environment has PLUGIN_PROTOCOL_VERSIONS=%s); " % c["host_env_versions"] + what
         else:
             what = "plugin alone, PLUGIN_PROTOCOL_VERSIONS=%r (%s), serves %s: announced %s" % (
                 ",".join(t["text"] for t in c["tokens"]) if not c["no_list"] else None, c.get("kind"),
@@ -125,7 +141,10 @@ def replay(path):
     c = payload["case"]["case"]
     rep = vlib.Report(PROP, "quick", payload.get("seed", 0), "model_checking")
     b = build()
-    obs, crashes = vlib.run_cases(b["drivers"], "TestVersionCases", [c], "c02r", env={"VERIF_VPLUGIN": b["vplugin"]}, shards=1)
+    env = {"VERIF_VPLUGIN": b["vplugin"]}
+    if c.get("host_env_versions"):
+        env["PLUGIN_PROTOCOL_VERSIONS"] = c["host_env_versions"]
+    obs, crashes = vlib.run_cases(b["drivers"], "TestVersionCases", [c], "c02r", env=env, shards=1)
     r2, dev = vlib.judge_observations("TraceVersions", "trace_versions.cfg", list(obs.values()), "c02r")
     for name in dev:
         rep.violation("c02:replay", "observation not allowed: %s" % json.dumps(obs[name]["out"]), {"case": c, "observation": obs[name]})
